@@ -65,17 +65,38 @@ Proof.
   rewrite A, B. cbn [Qnum Qden inject_Z]. apply Z.quot_1_r.
 Qed.
 
-Theorem uint_stable_small : forall n, 0 <= n -> n < 2 ^ 53 -> uint_stable n.
+Lemma f64_dec_int : forall n, 0 <= n -> n < 2 ^ 53 -> f64_dec (Dec n 0) = FNum (inject_Z n).
 Proof.
-  intros n H0 H1. unfold uint_stable, conv_uint, jint, f64_dec, dq. cbn [dmant dexp].
+  intros n H0 H1. unfold f64_dec, dq. cbn [dmant dexp].
   assert (E : (inject_Z n * pow10Q 0)%Q = (n * 1 # 1)).
   { unfold pow10Q. cbn [Qpower]. unfold Qmult, inject_Z. cbn [Qnum Qden]. reflexivity. }
   rewrite E. unfold f64. cbn [Qnum Qden]. rewrite Z.mul_1_r.
-  assert (P : 2 ^ 53 < 2 ^ 64) by (apply Z.pow_lt_mono_r; lia).
   destruct (Z.eqb_spec n 0) as [Z0|Z0].
   - subst n. reflexivity.
-  - destruct (Z.ltb_spec 0 n); [|lia]. rewrite (f64_pos_int n) by lia.
-    rewrite go_uint_int by lia. reflexivity.
+  - destruct (Z.ltb_spec 0 n); [|lia]. apply f64_pos_int; lia.
+Qed.
+
+Theorem uint_stable_small : forall n, 0 <= n -> n < 2 ^ 53 -> uint_stable n.
+Proof.
+  intros n H0 H1. unfold uint_stable, conv_uint, jint. rewrite (f64_dec_int n H0 H1).
+  assert (P : 2 ^ 53 < 2 ^ 64) by (apply Z.pow_lt_mono_r; lia).
+  rewrite go_uint_int by lia. reflexivity.
+Qed.
+
+Lemma uint_number_ok_int : forall n, 0 <= n -> n < 2 ^ 53 -> uint_number_ok (inject_Z n) = true.
+Proof.
+  intros n H0 H1. unfold uint_number_ok. apply andb_true_iff. split; [apply andb_true_iff; split|].
+  - apply Qle_bool_iff. change 0%Q with (inject_Z 0). rewrite <- Zle_Qle. exact H0.
+  - cbn [Qnum Qden inject_Z]. rewrite Z.mod_1_r. reflexivity.
+  - unfold Qltb. destruct (inject_Z n ?= inject_Z (2 ^ 53))%Q eqn:E; try reflexivity.
+    + apply Qeq_alt in E. unfold Qeq in E. cbn [Qnum Qden inject_Z] in E. lia.
+    + apply Qgt_alt in E. unfold Qlt in E. cbn [Qnum Qden inject_Z] in E. lia.
+Qed.
+
+Lemma uint_member_ok_jint : forall k o n, lookup_last k o = Some (jint n) -> 0 <= n -> n < 2 ^ 53 -> uint_member_ok k o = true.
+Proof.
+  intros k o n H H0 H1. unfold uint_member_ok. rewrite H. unfold jint. rewrite (f64_dec_int n H0 H1).
+  apply uint_number_ok_int; assumption.
 Qed.
 
 (** every unsigned member below 2^53: the readable sufficient condition for [tms_stable] *)
@@ -89,10 +110,34 @@ Definition tms_small (t : tms) : Prop := Forall (fun e => tm_small (snd e)) (t_m
 Lemma small_stable : forall n, small n -> uint_stable n.
 Proof. intros n [H0 H1]. apply uint_stable_small; assumption. Qed.
 
+Lemma vmw_elem_ok_encode : forall v, vmw_small v -> vmw_elem_ok (encodeVmw v) = true.
+Proof.
+  intros [c a b] [[C0 C1] [[A0 A1] [B0 B1]]]. cbn [v_coalesce v_minTileRow v_maxTileRow] in *.
+  unfold vmw_elem_ok, encodeVmw. cbn [v_coalesce v_minTileRow v_maxTileRow].
+  rewrite (uint_member_ok_jint "coalesce" _ c) by (auto; reflexivity).
+  rewrite (uint_member_ok_jint "minTileRow" _ a) by (auto; reflexivity).
+  rewrite (uint_member_ok_jint "maxTileRow" _ b) by (auto; reflexivity).
+  reflexivity.
+Qed.
+
+Lemma uints_ok_encode : forall m, tm_small m -> uints_ok (collapse (tm_fields m)) = true.
+Proof.
+  intros m [[W0 W1] [[H0 H1] [[MW0 MW1] [[MH0 MH1] HV]]]]. unfold uints_ok.
+  rewrite (uint_member_ok_jint "tileWidth" _ (tm_tileWidth m)); [|look; reflexivity|assumption|assumption].
+  rewrite (uint_member_ok_jint "tileHeight" _ (tm_tileHeight m)); [|look; reflexivity|assumption|assumption].
+  rewrite (uint_member_ok_jint "matrixWidth" _ (tm_matrixWidth m)); [|look; reflexivity|assumption|assumption].
+  rewrite (uint_member_ok_jint "matrixHeight" _ (tm_matrixHeight m)); [|look; reflexivity|assumption|assumption].
+  cbn [andb]. look.
+  destruct (tm_vmw m) as [[|x r]|] eqn:E; try reflexivity.
+  specialize (HV _ eq_refl). cbn [ovmws]. rewrite forallb_forall. intros j Hj. apply in_map_iff in Hj.
+  destruct Hj as [v [Ev Hv]]. subst j. rewrite Forall_forall in HV. apply vmw_elem_ok_encode. apply HV. exact Hv.
+Qed.
+
 Lemma tms_small_stable : forall t, tms_small t -> tms_stable t.
 Proof.
   intros t H. unfold tms_small, tms_stable in *. rewrite Forall_forall in *. intros e He. specialize (H e He).
-  destruct H as [S1 [S2 [S3 [S4 S5]]]]. unfold tm_stable. repeat split; try (apply small_stable; assumption).
+  assert (U := uints_ok_encode _ H).
+  destruct H as [S1 [S2 [S3 [S4 S5]]]]. unfold tm_stable. repeat split; try (apply small_stable; assumption); try exact U.
   intros l Hl. specialize (S5 l Hl). rewrite Forall_forall in *. intros v Hv. destruct (S5 v Hv) as [A [B C]].
   unfold vmw_stable. repeat split; apply small_stable; assumption.
 Qed.
